@@ -5,6 +5,7 @@ package c18
 import (
 	"encoding/json"
 	"fmt"
+	"math"
 	"strings"
 	"time"
 
@@ -22,6 +23,10 @@ type Op struct {
 	V   int    `json:"v,omitempty"`
 	Old int    `json:"old,omitempty"`
 	Use int    `json:"use,omitempty"` // pool: yields while holding
+	// feq: the register holds float64 (set when the history is checked): values
+	// 0 and 1 are +0 and -0, equal under == but not identical, and 3 is NaN, equal
+	// to nothing
+	feq bool
 }
 
 func (o Op) String() string {
@@ -100,7 +105,7 @@ func (H) Generate(r *simrt.Rand, tier string) any {
 		}
 		return s
 	}
-	s.Kind = []string{"int", "string", "struct", "iface"}[r.Intn(4)]
+	s.Kind = []string{"int", "string", "struct", "iface", "float"}[r.Intn(5)]
 	next := 0
 	var stored []int
 	dup := r.Intn(4) == 0 // values from a tiny set: equal values written by different calls
@@ -239,6 +244,31 @@ func newRegister(kind string) register {
 			}
 			return *p
 		}}
+	case "float":
+		// 0 -> +0 (the zero value), 1 -> -0 (== +0, other bits), 2 -> 1.5, 3 -> NaN (!= itself)
+		return &regOf[float64]{to: func(i int) float64 {
+			switch i {
+			case 0:
+				return 0
+			case 1:
+				return math.Copysign(0, -1)
+			case 2:
+				return 1.5
+			case 3:
+				return math.NaN()
+			}
+			return float64(i)
+		}, from: func(x float64) int {
+			switch {
+			case x != x:
+				return 3
+			case x == 0 && math.Signbit(x):
+				return 1
+			case x == 1.5:
+				return 2
+			}
+			return int(x)
+		}}
 	case "string":
 		return &regOf[string]{to: func(i int) string {
 			if i == 0 {
@@ -317,7 +347,9 @@ func (H) Execute(scAny any, cfg simrt.Config, st *core.Stats) (*simrt.Outcome, *
 	var ops []porcupine.Operation
 	for c, h := range hist {
 		for _, r := range h {
-			ops = append(ops, porcupine.Operation{ClientId: c, Input: r.op, Call: 2 * r.inv, Output: [2]int{r.val, b2i(r.ok)}, Return: 2*r.ret + 1})
+			in := r.op
+			in.feq = sc.Kind == "float"
+			ops = append(ops, porcupine.Operation{ClientId: c, Input: in, Call: 2 * r.inv, Output: [2]int{r.val, b2i(r.ok)}, Return: 2*r.ret + 1})
 		}
 	}
 	res := porcupine.CheckOperationsTimeout(regModel, ops, 10*time.Second)
@@ -369,7 +401,12 @@ var regModel = porcupine.Model{
 				}
 				return true, s
 			}
-			if s.val == o.Old {
+			eq := s.val == o.Old
+			if o.feq {
+				// == on float64: +0 and -0 are equal, NaN equals nothing
+				eq = (s.val == o.Old || (s.val <= 1 && o.Old <= 1)) && s.val != 3 && o.Old != 3
+			}
+			if eq {
 				return res[1] == 1, rstate{true, o.V}
 			}
 			return res[1] == 0, s
